@@ -24,6 +24,8 @@ class Static:
         for (p, s, k) in case.get("edges", []):
             self.inputs[s].append((p, k))
             self.outputs[p].append((s, k))
+        for (p, s, k) in case.get("edges_in", []):      # declared on the successor's side only: gates read the input list
+            self.inputs[s].append((p, k))
         self.name = [t["name"] for t in T]
         self.work = [Fraction(t["work"]) for t in T]
         self.progress = [Fraction(t.get("progress", "0")) for t in T]
@@ -57,7 +59,7 @@ class Static:
         self.size = [Fraction(c.get("size", "1")) for c in C]
         self.children = [list(c.get("children", [])) for c in C]
         self.parents = [[j for j in range(len(C)) if i in self.children[j]] for i in range(len(C))]
-        self.comp_tasks = [[i for i, t in enumerate(T) if t.get("comp") == c] for c in range(len(C))]
+        self.comp_tasks = [[i for i, t in enumerate(T) if t.get("comp") == c] + list(C[c].get("extra_tasks", [])) for c in range(len(C))]
 
     def wskill(self, w, t):
         return self.W[w]["skills"].get(self.name[t], Fraction(0))
